@@ -95,6 +95,30 @@ ev_request(int p, int nh)
 	monitor();
 	WITNESS("request arrived");
 }
+/* G(p,nh): the state rep0_ctx_recv leaves behind for a request with nh hops
+ * that arrived on pipe p, constructed directly (the receive step itself is
+ * checked by the Q/R skeletons): the inductive interface is
+ * (ctx->btrace, ctx->btrace_len, ctx->pipe_id). */
+static void
+ev_got(int p, int nh)
+{
+	KNEED(kpipe_up[p] && nq < MAXQ && !sock_closed);
+	if (kstop)
+		return;
+	int n = (nh + 1) * 4;
+	for (int k = 0; k < n; k++) {
+		qhdr[nq][k]                     = ND(u8);
+		((u8 *) sock.ctx.btrace)[k] = qhdr[nq][k];
+	}
+	sock.ctx.btrace_len = (size_t) n;
+	sock.ctx.pipe_id    = kpipe[p].id;
+	qhlen[nq]           = n;
+	qpipe[nq]           = p;
+	nq++;
+	have_req = 1;
+	req_q    = nq - 1;
+	replied  = 0;
+}
 static void
 ev_badrequest(int p, int k)
 {
@@ -170,7 +194,7 @@ ev_send(int i, int blocking)
 	kuaio_prepare(i, blocking);
 	ukind[i] = 1;
 	umsg[i]  = kmsg(2);
-	umsg[i]->tag = 77;
+	umsg[i]->tag = 77 + i;
 	nni_aio_set_msg(&uaio[i], umsg[i]);
 	env_aio_submit(&uaio[i]);
 	rep0_ctx_send(&sock.ctx, &uaio[i]);
@@ -187,7 +211,7 @@ ev_send(int i, int blocking)
 			if (p != origin)
 				CHECK(kpipe[p].sends == sends0[p], "a reply is sent only to the connection its request came from");
 		if (kpipe_up[origin] && !pd[origin].closed) {
-			if (kpipe[origin].wire_msg != NULL && kpipe[origin].wire_msg->tag == 77) {
+			if (kpipe[origin].wire_msg != NULL && kpipe[origin].wire_msg->tag == 77 + i) {
 				nni_msg *w = kpipe[origin].wire_msg;
 				CHECK(nni_msg_header_len(w) == (size_t) qhlen[q], "reply carries a backtrace of the request's length");
 				size_t j = ND(usz);
@@ -253,6 +277,7 @@ ev_close(void)
 #define A(p) if (!kstop) ev_attach(p);
 #define Q(p, nh) if (!kstop) ev_request(p, nh);
 #define QB(p, k) if (!kstop) ev_badrequest(p, k);
+#define G(p, nh) if (!kstop) ev_got(p, nh);
 #define R(i, b) if (!kstop) ev_recv(i, b);
 #define S(i, b) if (!kstop) ev_send(i, b);
 #define T(p, ok) if (!kstop) ev_txdone(p, ok);
